@@ -40,9 +40,10 @@ func canonParams(fn *ssa.Function, c *Ctx, s string) string {
 }
 
 type atomizer struct {
-	c  *Ctx
-	pv *prov
-	fn *ssa.Function
+	c           *Ctx
+	pv          *prov
+	fn          *ssa.Function
+	helperDepth int
 }
 
 func (a *atomizer) o(v ssa.Value) string {
@@ -174,6 +175,22 @@ func (a *atomizer) pathsDNF(from, to *ssa.BasicBlock, limit int) ([][]literal, b
 					}
 				}
 			}
+			// a call of a loop-free boolean module helper is expanded into the helper's own paths
+			if hp, expanded := a.helperPaths(iff.Cond); expanded {
+				for _, h := range hp {
+					nacc := append(acc[:len(acc):len(acc)], h.lits...)
+					switch {
+					case h.known && h.val:
+						walk(b, b.Succs[0], nacc, seen)
+					case h.known:
+						walk(b, b.Succs[1], nacc, seen)
+					default:
+						walk(b, b.Succs[0], append(nacc[:len(nacc):len(nacc)], literal{h.atom, h.atomPos}), seen)
+						walk(b, b.Succs[1], append(nacc[:len(nacc):len(nacc)], literal{h.atom, !h.atomPos}), seen)
+					}
+				}
+				return
+			}
 			s, pos := a.atom(iff.Cond)
 			walk(b, b.Succs[0], append(acc, literal{s, pos}), seen)
 			walk(b, b.Succs[1], append(acc[:len(acc):len(acc)], literal{s, !pos}), seen)
@@ -185,6 +202,132 @@ func (a *atomizer) pathsDNF(from, to *ssa.BasicBlock, limit int) ([][]literal, b
 	}
 	walk(nil, from, nil, map[*ssa.BasicBlock]bool{})
 	return out, ok
+}
+
+type helperPath struct {
+	lits    []literal
+	known   bool // the helper returns a constant on this path
+	val     bool
+	atom    string // otherwise: the returned expression as an atom
+	atomPos bool
+}
+
+// helperPaths expands a condition that is a call (possibly negated) of a loop-free module function returning bool
+// into that function's paths, with its parameters bound to the argument origins at the call.
+func (a *atomizer) helperPaths(cond ssa.Value) ([]helperPath, bool) {
+	neg := false
+	if u, ok := cond.(*ssa.UnOp); ok && u.Op == token.NOT {
+		cond, neg = u.X, true
+	}
+	call, ok := cond.(*ssa.Call)
+	if !ok {
+		return nil, false
+	}
+	callee := call.Call.StaticCallee()
+	if callee == nil || !a.c.InModule(callee) || callee.Blocks == nil || hasLoop(callee) || a.helperDepth > 2 {
+		return nil, false
+	}
+	res := callee.Signature.Results()
+	if res.Len() != 1 {
+		return nil, false
+	}
+	if bt, isB := res.At(0).Type().Underlying().(*types.Basic); !isB || bt.Kind() != types.Bool {
+		return nil, false
+	}
+	bind := map[*ssa.Parameter][]string{}
+	for i, prm := range callee.Params {
+		if i < len(call.Call.Args) {
+			bind[prm] = a.pv.Origins(call.Call.Args[i])
+		}
+	}
+	a.pv.binds = append(a.pv.binds, bind)
+	a.helperDepth++
+	defer func() {
+		a.pv.binds = a.pv.binds[:len(a.pv.binds)-1]
+		a.helperDepth--
+	}()
+	inner := &atomizer{c: a.c, pv: a.pv, fn: a.fn, helperDepth: a.helperDepth}
+	var out []helperPath
+	type retCase struct {
+		to   *ssa.BasicBlock
+		edge []literal
+		val  ssa.Value
+	}
+	for _, ret := range returnsOf(callee) {
+		v := retResults(ret)[0]
+		var cases []retCase
+		if phi, isPhi := v.(*ssa.Phi); isPhi && phi.Block() == ret.Block() {
+			// a short-circuit expression: one case per incoming edge, nested phis (a || (b && c)) flattened
+			okSplit := true
+			var split func(phi *ssa.Phi, tail []literal)
+			split = func(phi *ssa.Phi, tail []literal) {
+				for i, e := range phi.Edges {
+					pred := phi.Block().Preds[i]
+					el := append([]literal{}, tail...)
+					for _, g := range edgeGuard(pred, phi.Block()) {
+						s, pos := inner.atom(g.Cond)
+						el = append(el, literal{s, pos == g.Truth})
+					}
+					if innerPhi, isInner := e.(*ssa.Phi); isInner {
+						// the inner phi's block must flow straight into this edge
+						if innerPhi.Block() != pred || len(succs(pred)) != 1 {
+							okSplit = false
+							continue
+						}
+						split(innerPhi, el)
+						continue
+					}
+					cases = append(cases, retCase{pred, el, e})
+				}
+			}
+			split(phi, nil)
+			if !okSplit {
+				return nil, false
+			}
+		} else {
+			cases = append(cases, retCase{ret.Block(), nil, v})
+		}
+		for _, cs := range cases {
+			paths, ok := inner.pathsDNF(callee.Blocks[0], cs.to, 64)
+			if !ok {
+				return nil, false
+			}
+			for _, lits := range paths {
+				hp := helperPath{lits: append(append([]literal{}, lits...), cs.edge...)}
+				if k, isK := cs.val.(*ssa.Const); isK {
+					hp.known, hp.val = true, constBool(k) != neg
+				} else {
+					s, pos := inner.atom(cs.val)
+					hp.atom, hp.atomPos = s, pos != neg
+				}
+				out = append(out, hp)
+			}
+		}
+	}
+	return out, true
+}
+
+func (a *atomizer) helperPathsOld(callee *ssa.Function, neg bool) ([]helperPath, bool) {
+	inner := a
+	var out []helperPath
+	for _, ret := range returnsOf(callee) {
+		paths, ok := inner.pathsDNF(callee.Blocks[0], ret.Block(), 64)
+		if !ok {
+			return nil, false
+		}
+		v := retResults(ret)[0]
+		for _, lits := range paths {
+			hp := helperPath{lits: lits}
+			if k, isK := v.(*ssa.Const); isK {
+				hp.known, hp.val = true, constBool(k) != neg
+			} else {
+				s, pos := inner.atom(v)
+				hp.atom, hp.atomPos = s, pos != neg
+			}
+			out = append(out, hp)
+		}
+	}
+	return out, true
 }
 
 // dnfEqual compares two DNFs by truth table over the union of their atoms.
@@ -275,7 +418,7 @@ func ruleGuardUpdate(c *Ctx, r *Rep) {
 		return
 	}
 	fk := c.FuncKey(fn)
-	a := &atomizer{c, c.newProv().Opaque(c.Method("generator/config", "CertificateContent", "HashSum")), fn}
+	a := &atomizer{c: c, pv: c.newProv().Opaque(c.Method("generator/config", "CertificateContent", "HashSum")), fn: fn}
 	// parameter roles by type
 	iBackend, iStrat, iAlias, iCfg := -1, -1, -1, -1
 	for i, p := range fn.Params {
@@ -453,7 +596,7 @@ func ruleProvPlan(c *Ctx, r *Rep) {
 	}
 	r.Check(instrDominates(update, appendCall), "insert-before-append|"+fk, c.Pos(appendCall.Pos()), "on every path that plans a change the alias was inserted into the propagation set (so the entity's subjects are planned too)", sprintf("insertion dominates append: %v", instrDominates(update, appendCall)))
 	// the condition under which the change is appended: lookup ok OR decision
-	a := &atomizer{c, pv, plan}
+	a := &atomizer{c: c, pv: pv, fn: plan}
 	var updIf *ssa.If
 	for _, g := range guardsOf(appendCall.Block()) {
 		if _, isPhi := g.Cond.(*ssa.Phi); isPhi {
